@@ -39,6 +39,90 @@ package rules
 //@   panics !(arrayType == events.ArrayTypeCustomBinary || arrayType == events.ArrayTypeCustomText)
 
 // ---------------------------------------------------------------------------------------------
+// Context: the rule stack
+
+//@ func (*Context).ChangeRule
+//@   modifies _this.CurrentEntry.Rule
+//@   ensures _this.CurrentEntry.Rule == rule
+
+//@ func (*Context).stackRule
+//@   requires len(_this.stack) < 0x100000000
+//@   modifies _this.stack, obj(_this.CurrentEntry), mem(_this.stack), alloc
+//@   ensures len(_this.stack) == old(len(_this.stack)) + 1
+//@   ensures _this.stack[old(len(_this.stack))] == old(val(_this.CurrentEntry))
+//@   ensures forall i int :: 0 <= i && i < old(len(_this.stack)) ==> _this.stack[i] == old(_this.stack[i])
+//@   ensures _this.CurrentEntry.Rule == rule && _this.CurrentEntry.DataType == dataType
+//@   ensures _this.CurrentEntry.ExpectedObjectCount == expectedObjectCount && _this.CurrentEntry.CurrentObjectCount == 0
+//@   ensures len(_this.CurrentEntry.Keys) == 0 && fresh(_this.CurrentEntry.Keys)
+
+//@ func (*Context).UnstackRule
+//@   requires len(_this.stack) > 0
+//@   modifies _this.stack, obj(_this.CurrentEntry)
+//@   ensures result == old(_this.CurrentEntry.Rule)
+//@   ensures val(_this.CurrentEntry) == old(_this.stack[len(_this.stack)-1])
+//@   ensures len(_this.stack) == old(len(_this.stack)) - 1
+//@   ensures _this.stack.arr == old(_this.stack.arr) && _this.stack.off == old(_this.stack.off)
+
+//@ func (*Context).ParentRule
+//@   requires len(_this.stack) > 0
+//@   ensures result == _this.stack[len(_this.stack)-1].Rule
+
+// ---------------------------------------------------------------------------------------------
+// Context: configured limits (C14): each check panics exactly when the new usage exceeds the
+// configured maximum.
+
+// Container depth.
+//@ func (*Context).beginContainer
+//@   requires _this.config != nil && len(_this.stack) < 0x100000000
+//@   modifies _this.containerDepth, _this.stack, obj(_this.CurrentEntry), mem(_this.stack), alloc
+//@   panics _this.containerDepth + 1 > _this.config.Rules.MaxContainerDepth
+//@   ensures _this.containerDepth == old(_this.containerDepth) + 1
+//@   ensures len(_this.stack) == old(len(_this.stack)) + 1
+//@   ensures _this.stack[old(len(_this.stack))] == old(val(_this.CurrentEntry))
+//@   ensures forall i int :: 0 <= i && i < old(len(_this.stack)) ==> _this.stack[i] == old(_this.stack[i])
+//@   ensures _this.CurrentEntry.Rule == rule && _this.CurrentEntry.DataType == dataType
+//@   ensures _this.CurrentEntry.ExpectedObjectCount == expectedObjectCount && _this.CurrentEntry.CurrentObjectCount == 0
+//@   ensures len(_this.CurrentEntry.Keys) == 0 && fresh(_this.CurrentEntry.Keys)
+
+// Array size in bytes; a maximum of 0 means unlimited.
+//@ func (*Context).validateArrayTotalByteCount
+//@   panics byteCount > _this.arrayMaxByteCount && maxByteCount > 0
+
+//@ func (*Context).markUpcomingChunkByteCount
+//@   modifies _this.arrayTotalByteCount
+//@   panics _this.arrayTotalByteCount + byteCount > _this.arrayMaxByteCount && _this.arrayMaxByteCount > 0
+//@   ensures _this.arrayTotalByteCount == old(_this.arrayTotalByteCount) + byteCount
+
+//@ func (*Context).ValidateLengthAnyType
+//@   requires _this.config != nil
+//@   panics length > _this.config.Rules.MaxArraySizeBytes && _this.config.Rules.MaxArraySizeBytes > 0
+//@ func (*Context).ValidateLengthString
+//@   requires _this.config != nil
+//@   panics length > _this.config.Rules.MaxArraySizeBytes && _this.config.Rules.MaxArraySizeBytes > 0
+//@ func (*Context).ValidateLengthRID
+//@   requires _this.config != nil
+//@   panics length > _this.config.Rules.MaxArraySizeBytes && _this.config.Rules.MaxArraySizeBytes > 0
+
+// Chunk byte accounting: more data than the chunk header announced is rejected at once.
+//@ func (*Context).MarkCompletedChunkByteCount
+//@   modifies _this.chunkActualByteCount
+//@   panics _this.chunkActualByteCount + byteCount > _this.chunkExpectedByteCount
+//@   ensures _this.chunkActualByteCount == old(_this.chunkActualByteCount) + byteCount
+
+// Markers: count limit (the suite uses MaxLocalReferenceCount for it), no duplicate ids, and a
+// pending forward reference must accept the marked type.
+//@ func (*Context).MarkObject
+//@   requires _this.config != nil && _this.markedObjects != nil && _this.forwardLocalReferences != nil && _this.markedObjects != _this.forwardLocalReferences
+//@   modifies _this.LocalReferenceCount, mapof(_this.markedObjects), mapof(_this.forwardLocalReferences)
+//@   let id = box(_this.markerID)
+//@   panics _this.LocalReferenceCount + 1 > _this.config.Rules.MaxLocalReferenceCount || has(_this.markedObjects, id) || (has(_this.forwardLocalReferences, id) && (_this.forwardLocalReferences[id] & dataType) == 0)
+//@   ensures _this.LocalReferenceCount == old(_this.LocalReferenceCount) + 1
+//@   ensures has(_this.markedObjects, id) && _this.markedObjects[id] == dataType
+//@   ensures forall k any :: k != id ==> has(_this.markedObjects, k) == old(has(_this.markedObjects, k)) && _this.markedObjects[k] == old(_this.markedObjects[k])
+//@   ensures !has(_this.forwardLocalReferences, id)
+//@   ensures forall k any :: k != id ==> has(_this.forwardLocalReferences, k) == old(has(_this.forwardLocalReferences, k))
+
+// ---------------------------------------------------------------------------------------------
 // C15: the validator passes accepted events through unchanged. Generated by /verif/scripts/gen_rules_c15.py.
 // `forwards M(args)`: on normal return exactly the call M(args) was appended to the ghost log of calls made
 // on the next receiver, and nothing else in the log changed; on a panic either nothing was appended (the
